@@ -19,6 +19,8 @@ inductive UErr where
   | invalidArgument       -- CoreError::InvalidArgument (expired buffer)
   | unimplemented         -- CoreError::Unimplemented
   | exceedMaxFactor       -- MarketError::ExceedMaxMarketConfigFactor
+  | notFound              -- CoreError::NotFound (role never enabled)
+  | preconditionsNotMet   -- CoreError::PreconditionsAreNotMet (role disabled)
   deriving DecidableEq, Repr
 
 /-- which keys / flags a MARKET_CONFIG_KEEPER may update (`MarketConfigPermissions`) -/
@@ -128,5 +130,101 @@ def updateWithBuffer (has : Role → Bool) (p : Perms) (owned : Bool) (now expir
   if bufferHasOneAuthority && !owned then (c, .error .permissionDenied)
   else if Access.guardOk (info .store_update_market_config_with_buffer).attr has then runBuffer has p now expiry es bufferHandler c
   else (c, .error .permissionDenied)
+
+/-! ## the same three instructions over the store's ROLE TABLE (order-sensitive guards) -/
+open Gmx.Access in
+def ofG : GErr → UErr
+  | .permissionDenied => .permissionDenied
+  | .notFound => .notFound
+  | .preconditionsNotMet => .preconditionsNotMet
+
+open Gmx.Access in
+/-- a guard call inside a handler: `only_market_keeper(&ctx)` etc. -/
+def guardRes (t : RoleTable) (roles : List Role) : Except UErr Unit :=
+  match ensureAnyE t roles with
+  | .ok () => .ok ()
+  | .error e => .error (ofG e)
+
+open Gmx.Access in
+def runFactorE (t : RoleTable) (p : Perms) (key : Option Key) (v : Nat) : List Step → Cfg → Res
+  | [], c => (c, .ok ())
+  | .parseKey :: rest, c =>
+    match key with
+    | none => (c, .error .invalidKey)
+    | some _ => runFactorE t p key v rest c
+  | .requireUpdatableOr roles :: rest, c =>
+    match key with
+    | none => (c, .error .invalidKey)
+    | some k =>
+      match factorUpdatable p k with
+      | .error e => (c, .error e)
+      | .ok true => runFactorE t p key v rest c
+      | .ok false => match guardRes t roles with
+        | .ok () => runFactorE t p key v rest c
+        | .error e => (c, .error e)
+  | .writeFactor :: rest, c =>
+    match key.bind (fun k => c.set k v) with
+    | some c' => runFactorE t p key v rest c'
+    | none => (c, .error .unimplemented)
+  | .writeFlag :: _, c => (c, .error .unimplemented)
+
+open Gmx.Access in
+def runFlagE (t : RoleTable) (p : Perms) (key : Option Flag) (b : Bool) : List Step → Cfg → Res
+  | [], c => (c, .ok ())
+  | .parseKey :: rest, c =>
+    match key with
+    | none => (c, .error .invalidKey)
+    | some _ => runFlagE t p key b rest c
+  | .requireUpdatableOr roles :: rest, c =>
+    match key with
+    | none => (c, .error .invalidKey)
+    | some x =>
+      if p.flag x then runFlagE t p key b rest c
+      else match guardRes t roles with
+        | .ok () => runFlagE t p key b rest c
+        | .error e => (c, .error e)
+  | .writeFlag :: rest, c =>
+    match key with
+    | some x => runFlagE t p key b rest (c.setFlag x b)
+    | none => (c, .error .invalidKey)
+  | .writeFactor :: _, c => (c, .error .unimplemented)
+
+open Gmx.Access in
+def runBufferE (t : RoleTable) (p : Perms) (now expiry : Int) (es : List Entry) : List BStep → Cfg → Res
+  | [], c => (c, .ok ())
+  | .requireExpiryGtNow :: rest, c =>
+    if expiry > now then runBufferE t p now expiry es rest c else (c, .error .invalidArgument)
+  | .unlessRolesAllUpdatable roles :: rest, c =>
+    match guardRes t roles with
+    | .ok () => runBufferE t p now expiry es rest c
+    | .error err =>
+      -- `if let Err(err) = guard { for entry { key()?; if !updatable { return Err(err) } } }`
+      match checkAllUpdatable p es with
+      | .ok () => runBufferE t p now expiry es rest c
+      | .error .permissionDenied => (c, .error err)
+      | .error e => (c, .error e)
+  | .applyInOrder :: rest, c =>
+    match applyEntries es c with
+    | (c', .ok ()) => runBufferE t p now expiry es rest c'
+    | r => r
+
+open Gmx.Access in
+def withGuard (ix : IxId) (t : RoleTable) (c : Cfg) (k : Unit → Res) : Res :=
+  match guardE (info ix).attr t with
+  | .ok () => k ()
+  | .error e => (c, .error (ofG e))
+
+open Gmx.Access in
+def updateFactorE (t : RoleTable) (p : Perms) (key : Option Key) (v : Nat) (c : Cfg) : Res :=
+  withGuard .store_update_market_config t c fun _ => runFactorE t p key v factorHandler c
+
+open Gmx.Access in
+def updateFlagE (t : RoleTable) (p : Perms) (key : Option Flag) (b : Bool) (c : Cfg) : Res :=
+  withGuard .store_update_market_config_flag t c fun _ => runFlagE t p key b flagHandler c
+
+open Gmx.Access in
+def updateWithBufferE (t : RoleTable) (p : Perms) (owned : Bool) (now expiry : Int) (es : List Entry) (c : Cfg) : Res :=
+  if bufferHasOneAuthority && !owned then (c, .error .permissionDenied)
+  else withGuard .store_update_market_config_with_buffer t c fun _ => runBufferE t p now expiry es bufferHandler c
 
 end Gmx.ConfigUpdate
